@@ -87,6 +87,7 @@ class Ctx:
         self.wrap_obligations = []  # (dtype, condition): symbolic integers stored into narrow integer arrays must fit
         self.relerr = None          # harness option: RelErr float model, unit round-off u (e.g. Fraction(1, 2**53))
         self.abstract_log = False   # harness option: log(x) as a fresh real per distinct argument
+        self.log_bounds = False     # with abstract_log: assert the tangent bounds 1 - 1/x <= log x <= x - 1 (strict off x = 1)
         self.abstract_terms = []    # (kind, variable, argument) of operations abstracted WITHOUT refinement
         self.purify_div = False     # harness option: quotients as fresh variables with q*b == a
         self.resolve_masks = False  # harness option: decide mask cells that the path condition already forces
@@ -1279,6 +1280,11 @@ def _log_term(v):
             t = z3.Real(ctx.name('log'))
             ctx.memo[key] = t
             ctx.abstract_terms.append(('log', t, zv))
+            if getattr(ctx, 'log_bounds', False):
+                # true facts about the natural logarithm (tangent at 1 from above, and the same for 1/x from below)
+                one = z3.RealVal(1)
+                ctx.add(z3.Implies(zv > 0, z3.And(t <= zv - 1, t * zv >= zv - 1, (zv == one) == (t == 0),
+                                                  z3.Implies(zv != one, z3.And(t < zv - 1, t * zv > zv - 1)))))
         return t
     if active() and ('log-axioms' not in cur().memo):
         cur().memo['log-axioms'] = True
